@@ -249,4 +249,15 @@ var plans = map[string]*plan{
 		Post:           func(r *result, wd string) { parseRaceLogs(r, wd) },
 		Assumptions:    []string{"only executed schedules are observed; the detector's bounded shadow history can miss races whose accesses are far apart", "hooks add no synchronisation in the -race build (plain norace counters, clock-derived delays, no event sink)"},
 	},
+	"C05": {
+		Level: "fault_enumeration",
+		Rule: "the broker runs as separate OS processes (real ListenAndServe on 127.0.0.1, 16 KiB rings, connect timeout 1 s); a witness publisher/subscriber pair with numbered CRC payloads and an idle observer stay connected while attacker connections run: pre-CONNECT (every prefix of a valid CONNECT then close, every byte of it set to 0xff/0x00/+1, every wrong first packet type, unterminated / maximal / larger-than-ring remaining lengths, random bytes, silence until the connect timeout), post-CONNECT (the C04 mutation corpus of all 14 packet types, PUBLISH packets from 8 KiB-16 to 1 MiB, packets a client must not send), disconnects (close at sampled byte offsets of SUBSCRIBE and QoS 2 PUBLISH, close of a subscriber of the witness topic at seeded delays while 40 witness messages are flowing to it, half-close, a subscriber that stops reading then closes). " +
+			"After every attack: the broker process is alive (exit status and stderr captured), witness and observer connections are open, and the witness subscriber received exactly the next witness messages in order and nothing else. distinct = (attack class, variant).",
+		Quick:          []batchSpec{{Test: "TestC05", N: 8, Timeout: 20 * m, Weight: 2}},
+		Thorough:       []batchSpec{{Test: "TestC05", N: 16, Timeout: 90 * m}},
+		EvalStats:      []string{"c05.attacks"},
+		Floors:         map[string]int64{"c05.attacks": 1300, "c05.broker_processes": 8, "c05.witness_messages": 8000, "classes": 40},
+		FloorsThorough: map[string]int64{"c05.attacks": 30000, "classes": 60},
+		Assumptions:    []string{"loopback TCP; read/write errors below the socket API cannot be injected from outside the broker process (they are in C09/C16 via the chaos conn)", "no address-space cap is imposed: after the fix of the 5-byte remaining length an unauthenticated connection can make the broker reserve at most 256 MiB"},
+	},
 }
